@@ -44,6 +44,7 @@ DEFAULT_PROFILE = dict(
     allow_last_period_crash=True,
     sessions_cap=16,
     stoch_early=0.5,
+    second_life=0.0,              # probability that the judged run re-uses objects (network/queue/EVs/algorithm) of an earlier run
     custom_events=0.0,            # probability of user-defined base Events placed in periods that also hold a built-in event
     near_level_pilots=0.0,        # scripted party: share of finite-rate pilots placed within the EVSE's 1e-3 A tolerance of a level
     reconfig=0.0,                 # probability that the operator changes constraint limits mid-run (environment fault)
@@ -285,6 +286,9 @@ def gen_world(rs: int, P: dict) -> dict:
                                   "choice": sub(rs, "tapes2").choice(P["tapes_choice"])},
           "seed": rs}
     sc["faults"] = gen_faults(rs, sc, P)
+    rl = sub(rs, "second_life")
+    if P.get("second_life", 0) and P["net"] == "custom" and rl.random() < P["second_life"]:
+        sc["second_life"] = {k: rl.random() < 0.6 for k in ("network", "queue", "evs", "algo")}
     rr2 = sub(rs, "reconfig")
     if cons and P.get("reconfig", 0) and rr2.random() < P["reconfig"] and last >= 1:
         rc = []
